@@ -2,6 +2,7 @@ package main
 
 import (
 	"fmt"
+	"os"
 	"go/ast"
 	"go/constant"
 	"go/token"
@@ -50,6 +51,8 @@ var seqFuncs = []seqFunc{
 	{"pkg/llrp", "ackHandler.HandleMessage", "llrp_ackHandler_HandleMessage"},
 	{"pkg/llrp", "Client.send", "llrp_Client_send"},
 	{"pkg/llrp", "Client.handleOutgoing", "llrp_Client_handleOutgoing"},
+	{"internal/driver", "LLRPDevice.TrySend", "driver_LLRPDevice_TrySend"},
+	{"internal/driver", "LLRPDevice.closeLocked", "driver_LLRPDevice_closeLocked"},
 }
 
 // receivers of these types live in the World: their fields are read with World → T operations and their methods are
@@ -158,6 +161,11 @@ func (s *sq) escaped(id *ast.Ident, at ast.Node) {
 }
 
 func go2seq(repo string) {
+	// the source importer resolves the module's own packages and its dependencies relative to the working directory
+	if abs, err := filepath.Abs(repo); err == nil {
+		repo = abs
+		_ = os.Chdir(repo)
+	}
 	pkgs := map[string]*Pkg{}
 	var sb strings.Builder
 	sb.WriteString("-- GENERATED by /verif/translators/vx (go2seq) from /repo — do not edit\n")
@@ -837,7 +845,17 @@ func (s *sq) assignPath(e ast.Expr, v string, pre *[]string) string {
 			s.bad(e, "unsupported assignment target")
 		}
 		if id, ok := x.X.(*ast.Ident); ok && s.p.info.Uses[id] == s.worldRcv {
-			s.bad(e, "assignment to a field of the world receiver")
+			// c.f = v on the receiver that lives in the World
+			rt := s.worldRcv.Type()
+			if p, ok := rt.(*types.Pointer); ok {
+				rt = p.Elem()
+			}
+			st, ok := rt.Underlying().(*types.Struct)
+			if !ok || len(sel.Index()) != 1 {
+				s.bad(e, "assignment to a nested field of the world receiver")
+			}
+			f := st.Field(sel.Index()[0])
+			return fmt.Sprintf("let w := %s w %s", s.op("set_"+s.anyName(rt, e)+"_"+f.Name(), "§World → "+s.lt(f.Type(), e)+" → §World"), v)
 		}
 		// walk the (possibly promoted) field path: base.f1.f2…fn := v
 		bt := s.p.info.Types[x.X].Type
@@ -1451,12 +1469,68 @@ func (s *sq) assigned(list []ast.Stmt) []string {
 	return out
 }
 
+// hasCall: do the statements change (or may they change) the World? — a numbered call site, or any of the World
+// operations the translator emits itself: &x, <-ch, ch <- v, close / delete / panic / make(chan), a store through a
+// pointer or into a map or into a field of the world receiver, a function literal used as a value
 func (s *sq) hasCall(list []ast.Stmt) bool {
 	found := false
+	lhsTouches := func(l ast.Expr) bool {
+		switch x := l.(type) {
+		case *ast.StarExpr:
+			return true
+		case *ast.IndexExpr:
+			return true
+		case *ast.SelectorExpr:
+			if id, ok := x.X.(*ast.Ident); ok && s.worldRcv != nil && s.p.info.Uses[id] == s.worldRcv {
+				return true
+			}
+			if tv, ok := s.p.info.Types[x.X]; ok && tv.Type != nil {
+				if _, isPtr := tv.Type.Underlying().(*types.Pointer); isPtr {
+					if id, ok := x.X.(*ast.Ident); !(ok && s.valRcv != nil && s.p.info.Uses[id] == s.valRcv) {
+						return true
+					}
+				}
+			}
+		}
+		return false
+	}
 	for _, st := range list {
 		ast.Inspect(st, func(n ast.Node) bool {
-			if ce, ok := n.(*ast.CallExpr); ok && s.callName[ce.Lparen] != "" {
+			switch x := n.(type) {
+			case *ast.CallExpr:
+				if s.callName[x.Lparen] != "" {
+					found = true
+				}
+				if id, ok := x.Fun.(*ast.Ident); ok {
+					if _, ok := s.p.info.Uses[id].(*types.Builtin); ok {
+						switch id.Name {
+						case "close", "delete", "panic":
+							found = true
+						case "make":
+							if tv, ok := s.p.info.Types[x]; ok && tv.Type != nil {
+								if _, isChan := tv.Type.Underlying().(*types.Chan); isChan {
+									found = true
+								}
+							}
+						}
+					}
+				}
+			case *ast.UnaryExpr:
+				if x.Op == token.AND || x.Op == token.ARROW {
+					found = true
+				}
+			case *ast.SendStmt, *ast.SelectStmt, *ast.FuncLit:
 				found = true
+			case *ast.AssignStmt:
+				for _, l := range x.Lhs {
+					if lhsTouches(l) {
+						found = true
+					}
+				}
+			case *ast.IncDecStmt:
+				if lhsTouches(x.X) {
+					found = true
+				}
 			}
 			return true
 		})
